@@ -351,7 +351,10 @@ def check_store(prop, replay=None):
         n = 40 if vlib.tier() == "quick" else 400
         nops = 60 if vlib.tier() == "quick" else 120
         docs = [gen_history(rng, i, "kvs", nops, prop) for i in range(n)]
-        docs += [gen_history(rng, n + i, "tree", nops, prop) for i in range(n // 4)]
+        # tree-mode histories (ingests of whole tables) stay at 60 operations in both tiers: the cost of validating one grows
+        # faster than its length (a 120-operation one took TLC 10-17 minutes, a chunk with five of them ran into TLC's
+        # 30-minute checkpoint and beyond the time-out); the thorough tier has ten times as many of them instead
+        docs += [gen_history(rng, n + i, "tree", min(nops, 60), prop) for i in range(n // 4)]
         docs += regression_histories()
     if prop in ("C01", "C05") and not replay:
         design_model(out, wd, vlib.tier() != "quick")
